@@ -7,7 +7,7 @@ tier = sys.argv[1] if len(sys.argv) > 1 else "quick"
 props = sys.argv[2:] or ["C%02d" % i for i in range(1, 21)]
 p = os.path.join(VERIF, "spec", "floors.json")
 fl = json.load(open(p))
-env = dict(os.environ, VERIF_NO_SELFTEST="1")
+env = dict(os.environ, VERIF_NO_SELFTEST="1", VERIF_MEASURING_FLOORS="1")     # the old floor must not make the measurement "not clean"
 for pr in props:
     r = subprocess.run([os.path.join(VERIF, "check"), pr, "--tier", tier, "--no-evidence"], cwd=VERIF, env=env, stdout=subprocess.PIPE, stderr=subprocess.STDOUT, text=True)
     m = re.search(r"obligations=(\d+) proved=(\d+) violated=(\d+)", r.stdout)
